@@ -29,20 +29,38 @@ static const uint64_t S_rec[4] = {0, 0, 3, 3}; static const uint64_t S_cnt[4] = 
 static const uint64_t S_rec[10] = {0, 0, 0, 0, 0, 1, 1, 2, 2, 3}; static const uint64_t S_cnt[5] = {1, 1, 2, 2, 2}; static const uint64_t S_dfs[5] = {0, 1, 2, 3, 4};
 #endif
 
+/* REROUTE: the routes change between the two steps (ROUNDS must be 2); the second step runs on structure T_* */
+#ifdef REROUTE
+#if REROUTE == 1   /* N=3, after step 1 on the chain 2 -> 1 -> 0: node 1 has become a pit, 2 -> 1 */
+static const uint64_t T_rec[3] = {0, 1, 1}; static const uint64_t T_cnt[3] = {1, 1, 1}; static const uint64_t T_dfs[3] = {0, 1, 2};
+#elif REROUTE == 2 /* N=4 single, after step 1 on struct 2: 3 self (pit), 1 -> 3, 2 -> 0 */
+static const uint64_t T_rec[4] = {0, 3, 0, 3}; static const uint64_t T_cnt[4] = {1, 1, 1, 1}; static const uint64_t T_dfs[4] = {0, 2, 3, 1};
+#elif REROUTE == 3 /* N=4 multi (D=2), after step 1 on struct 3: 3 self (pit); 1 -> {0, 3}; 2 -> {3}; 0 self */
+static const uint64_t T_rec[8] = {0, 0, 0, 3, 3, 0, 3, 0}; static const uint64_t T_cnt[4] = {1, 2, 1, 1}; static const uint64_t T_dfs[4] = {0, 3, 1, 2};
+#endif
+#define Q_rec T_rec
+#define Q_cnt T_cnt
+#define Q_dfs T_dfs
+#else
+#define Q_rec S_rec
+#define Q_cnt S_cnt
+#define Q_dfs S_dfs
+#endif
+
 fsv_f64 in_e[N], in_e2[N], in_area[N], in_k[N], in_w[N * R], in_dist[N * R], in_dt[1], in_m[1];
 
 static void oracle(const fsv_f64* e, fsv_f64* er)
 {
   for (int p = 0; p < N; p++) {
-    uint64_t i = S_dfs[p];
+    uint64_t i = Q_dfs[p];
     er[i] = 0.0;
-    if (S_cnt[i] == 1 && S_rec[i * R] == i) continue;
+    if (Q_cnt[i] == 1 && Q_rec[i * R] == i) continue;
     fsv_f64 flooded = DBL_MAX;
-    for (int r = 0; r < (int)S_cnt[i]; r++) { uint64_t j = S_rec[i * R + r]; fsv_f64 nx = e[j] - er[j]; if (nx < flooded) flooded = nx; }
+    for (int r = 0; r < (int)Q_cnt[i]; r++) { uint64_t j = Q_rec[i * R + r]; fsv_f64 nx = e[j] - er[j]; if (nx < flooded) flooded = nx; }
     if (e[i] <= flooded) continue;
     fsv_f64 num = e[i], den = 1.0;
-    for (int r = 0; r < (int)S_cnt[i]; r++) {
-      uint64_t j = S_rec[i * R + r];
+    for (int r = 0; r < (int)Q_cnt[i]; r++) {
+      uint64_t j = Q_rec[i * R + r];
       fsv_f64 nx = e[j] - er[j];
       if (e[j] > e[i]) continue;
       fsv_f64 f = (K_SCALAR ? in_k[0] : in_k[i]) * in_dt[0] * FSV_POW(in_area[i] * in_w[i * R + r], in_m[0]);
@@ -83,7 +101,11 @@ void fsv_harness(void)
     }
   }
   FSV_ASSUME(FSV_ISFINITE(in_dt[0]) && in_dt[0] >= 0.0 && FSV_ISFINITE(in_m[0]) && in_m[0] > 0.0);
+#ifdef REROUTE
+  FSV_MAY_THROW(fsv_spl_erode_rerouted(S_rec, S_cnt, in_w, in_dist, S_dfs, in_e, in_area, in_k, K_SCALAR, in_m[0], 1.0, 1e-3, in_dt[0], in_e2, erosion, &ncorr, T_rec, T_cnt, T_dfs));
+#else
   FSV_MAY_THROW(fsv_spl_erode(S_rec, S_cnt, in_w, in_dist, S_dfs, in_e, in_area, in_k, K_SCALAR, in_m[0], 1.0, 1e-3, in_dt[0], ROUNDS, in_e2, erosion, &ncorr));
+#endif
   for (int i = 0; i < N; i++) FSV_OBS_F64(erosion[i]);
   oracle(ROUNDS == 2 ? in_e2 : in_e, want);
   const fsv_f64* e = ROUNDS == 2 ? in_e2 : in_e;
@@ -91,7 +113,7 @@ void fsv_harness(void)
 #ifdef ONLY_NODE
     if (i != ONLY_NODE) continue;
 #endif
-    if (S_cnt[i] == 1 && S_rec[i * R] == (uint64_t)i) FSV_ASSERT(erosion[i] == 0.0, "no erosion at outlets and pits (self receivers)");
+    if (Q_cnt[i] == 1 && Q_rec[i * R] == (uint64_t)i) FSV_ASSERT(erosion[i] == 0.0, "no erosion at outlets and pits (self receivers)");
     FSV_ASSERT(erosion[i] == want[i] || (FSV_ISNAN(erosion[i]) && FSV_ISNAN(want[i])),
                "erosion equals the direct solution of the backward-Euler discrete equation (limited at the receivers' new level, zero in lakes)");
   }
